@@ -79,6 +79,9 @@ def write_loop(ctx, prog, viol):
         st, w = build_steady(prog, [])
         a0, L = w.outbuf.abs, w.outbuf.len
         st.pc.append(z3.ULE(L, 1 << 40))
+        # the buffer may already be sealed (a close is queued): draining must work all the same
+        ob_ = field(prog, w.inner.value, 'io_loop::Inner', 'outbuf')
+        ob_.fields[prog.types.fields('SealableOutputBuffer').index('sealed')] = Bool(sym('sealed0', z3.BoolSort()))
         n = 0
         for (s, rv) in ex.run(st, f, [Ref(w.inner), Ref(Cell(Unit(), 'stream'))], bind={'S': 'VerifStream'}):
             n += 1
@@ -365,12 +368,13 @@ fn verif_replay_c01() {
     let mut scripts: Vec<Vec<i32>> = vec![vec![]];
     for _ in 0..4 { let mut nxt = Vec::new(); for s in scripts.iter() { for a in alphabet.iter() { let mut t = s.clone(); t.push(*a); nxt.push(t); } } scripts.extend(nxt); scripts.sort(); scripts.dedup(); }
     let mut runs = 0u32;
-    for steps in scripts.iter() {
+    for (steps, sealed) in scripts.iter().flat_map(|s| vec![(s, false), (s, true)]) {
         runs += 1;
         let mut i = Inner::new(HeartbeatTimers::default(), 16);
         i.outbuf.clear();
         i.outbuf.push_heartbeat();   // 8 bytes
         i.outbuf.push_method(3, amq_protocol::protocol::basic::AMQPMethod::Ack(amq_protocol::protocol::basic::Ack { delivery_tag: 7, multiple: false }));
+        if sealed { i.seal_writes(); }   // a close is queued: what is already in the buffer must still go out exactly once
         let queued: Vec<u8> = (&i.outbuf[0..]).to_vec();
         let mut s = Script { steps: steps.clone(), i: 0, accepted: Vec::new() };
         // call write_to_stream repeatedly (as the loop does on each writable event) until the script is exhausted
@@ -385,7 +389,7 @@ fn verif_replay_c01() {
         let mut total: Vec<u8> = s.accepted.clone();
         if errors == 0 { total.extend_from_slice(&i.outbuf[0..]); }
         let prefix_ok = s.accepted.len() <= queued.len() && s.accepted[..] == queued[..s.accepted.len()];
-        if !prefix_ok || (errors == 0 && total != queued) || errors != want_errors { if bad.len() < 4 { bad.push(format!("write-loop:steps={:?}:accepted={}:left={}:errors={}/{}", steps, s.accepted.len(), i.outbuf.len(), errors, want_errors)); } }
+        if !prefix_ok || (errors == 0 && total != queued) || errors != want_errors { if bad.len() < 4 { bad.push(format!("write-loop:steps={:?}:sealed={}:accepted={}:left={}:errors={}/{}", steps, sealed, s.accepted.len(), i.outbuf.len(), errors, want_errors)); } }
     }
     // 3. appends: whole, in order, dropped once sealed
     {
